@@ -25,8 +25,7 @@ theorem step_eq (env : Env) (tx : Tx) (w : World) (op : Op) :
       else if !authOk env tx w (plan env op).id (plan env op).auth then (w, .fail)
       else match applyEff env tx w (plan env op).id (plan env op).eff with
         | .ok x => (w.set (plan env op).id x, .ok)
-        | .fail => (w, .fail)
-        | .panic => (w, .panic) := rfl
+        | .fail => (w, .fail) := rfl
 
 theorem step_ok {env : Env} {tx : Tx} {w w' : World} {op : Op} (h : step env tx w op = (w', .ok)) :
     Passed env tx w w' op := by
@@ -47,7 +46,6 @@ theorem step_ok {env : Env} {tx : Tx} {w w' : World} {op : Op} (h : step env tx 
             · simp [hn, hh] at h1
             · rfl
           | fail => rw [h5] at h; simp at h
-          | panic => rw [h5] at h; simp at h
         · simp [h1, h2, h3, h4] at h
       · simp [h1, h2, h3] at h
     · simp [h1, h2] at h
@@ -65,7 +63,6 @@ theorem step_not_ok {env : Env} {tx : Tx} {w : World} {op : Op} (h : (step env t
           cases h5 : applyEff env tx w (plan env op).id (plan env op).eff with
           | ok x => rw [h5] at h; simp at h
           | fail => rfl
-          | panic => rfl
         · simp [h1, h2, h3, h4]
       · simp [h1, h2, h3]
     · simp [h1, h2]
@@ -111,18 +108,6 @@ theorem step_revoked {env : Env} {tx : Tx} {w : World} {op : Op} (h : (w (plan e
   | fail =>
     have : (step env tx w op).1 = w := step_not_ok (by rw [hs]; decide)
     exact Prod.ext this hs
-  | panic =>
-    exfalso
-    rw [step_eq] at hs
-    have hst : statusOk env w (plan env op) = false := by
-      unfold statusOk
-      rw [h]
-      cases (plan env op).reg <;> simp
-    by_cases h1 : ((plan env op).newOnly && !tx.newApi) = true
-    · simp [h1] at hs
-    · by_cases h2 : (plan env op).pre = true
-      · simp [h1, h2, hst] at hs
-      · simp [h1, h2] at hs
 
 /-! ### soundness of the executable checks -/
 
@@ -406,7 +391,6 @@ theorem applyEff_keeps {env : Env} {tx : Tx} {w : World} {id : Bytes} {e : Eff} 
     simp only [applyEff] at h
     split at h
     · cases h
-    · cases h
     · rename_i ks hi
       cases h
       unfold revokePkByIndex at hi
@@ -414,14 +398,12 @@ theorem applyEff_keeps {env : Env} {tx : Tx} {w : World} {id : Bytes} {e : Eff} 
       · cases hi
       · split at hi
         · cases hi
-        · split at hi
+        · rename_i k0 h0
+          split at hi
           · cases hi
-          · rename_i k0 h0
-            split at hi
-            · cases hi
-            · rename_i hn
-              cases hi
-              exact Or.inl (set_keeps h0 (by simpa using hn) hk hr)
+          · rename_i hn
+            cases hi
+            exact Or.inl (set_keeps h0 (by simpa using hn) hk hr)
   | setAuth i b =>
     simp only [applyEff] at h
     split at h
